@@ -209,6 +209,10 @@ func c14Cases() []c14Case {
 		c14Case{desc: "class-object:double-quote-in-single-quoted-literal", tpl: `<p :class="{a: s != '&quot;', b: yes, c: s == '&quot;,'}">t</p>`, data: map[string]any{"s": "x", "yes": true}, want: map[string]string{"class": "a b"}},
 		c14Case{desc: "class-object:two-apostrophes", tpl: `<p :class="{a: s == &quot;rock'n'roll&quot;, b: yes}">t</p>`, data: map[string]any{"s": "rock'n'roll", "yes": true}, want: map[string]string{"class": "a b"}},
 		c14Case{desc: "style-object:apostrophe-in-double-quoted-value", tpl: `<p style="margin:0;color:blue" :style="{content: &quot;it's&quot;, color: tone}">t</p>`, data: map[string]any{"tone": "red"}, want: map[string]string{"style": ""}, style: map[string]string{"margin": "0", "content": "it's", "color": "red"}},
+		// a key that already contains a hyphen is a CSS property name as written - a custom property keeps its capitals (names are case-sensitive)
+		c14Case{desc: "style-object:custom-property-keeps-case", tpl: `<p :style="{'--mainColor': c, '--Gap-X': '2px'}">t</p>`, data: map[string]any{"c": "blue"}, want: map[string]string{"style": ""}, style: map[string]string{"--mainColor": "blue", "--Gap-X": "2px"}},
+		c14Case{desc: "style-object:custom-property-overrides-static", tpl: `<p style="--mainColor:red;color:var(--mainColor)" :style="{'--mainColor': c}">t</p>`, data: map[string]any{"c": "blue"}, want: map[string]string{"style": ""}, style: map[string]string{"--mainColor": "blue", "color": "var(--mainColor)"}},
+		c14Case{desc: "style-object:vendor-prefix-and-camel", tpl: `<p :style="{'-webkit-lineClamp': n, msTransform: 'none'}">t</p>`, data: map[string]any{"n": 3}, want: map[string]string{"style": ""}, style: map[string]string{"-webkit-lineClamp": "3", "ms-transform": "none"}},
 		c14Case{desc: "style-object:hyphen-key", tpl: `<p :style="{'font-size': s}">t</p>`, data: map[string]any{"s": "9px"}, want: map[string]string{"style": ""}, style: map[string]string{"font-size": "9px"}},
 		c14Case{desc: "style-bound-string", tpl: `<p style="color: red" :style="s">t</p>`, data: map[string]any{"s": "color: green; top: 1px"}, want: map[string]string{"style": ""}, style: map[string]string{"color": "green", "top": "1px"}},
 		c14Case{desc: "style-bound-nonstring", tpl: `<p style="color: red" :style="n">t</p>`, data: map[string]any{"n": 5}, want: map[string]string{"style": ""}, style: map[string]string{"color": "red"}},
